@@ -25,8 +25,10 @@ import (
 
 	"github.com/mr-tron/base58"
 	"github.com/nspcc-dev/neo-go/pkg/core/state"
+	"github.com/nspcc-dev/neo-go/pkg/core/transaction"
 	"github.com/nspcc-dev/neo-go/pkg/encoding/address"
 	"github.com/nspcc-dev/neo-go/pkg/neotest"
+	"github.com/nspcc-dev/neo-go/pkg/smartcontract"
 	"github.com/nspcc-dev/neo-go/pkg/util"
 	"github.com/nspcc-dev/neo-go/pkg/vm/stackitem"
 	"github.com/stretchr/testify/require"
@@ -42,6 +44,10 @@ type Step struct {
 	V    string   `json:"v"`
 	Nm   string   `json:"nm"`
 	Meta bool     `json:"meta"`
+	C2   string   `json:"c2"` // put2: the second put of the block
+	V2   string   `json:"v2"`
+	Nm2  string   `json:"nm2"`
+	Meta2 bool    `json:"meta2"`
 	O    string   `json:"o"`
 	K    string   `json:"k"`
 	Amt  int64    `json:"amt"`
@@ -63,13 +69,18 @@ var scales = []*big.Int{
 }
 
 const (
-	nOwners = 3
+	nOwners = 3 // o1, o2: ordinary users; oa: the standard account of Alphabet node aIdx(n)
 	nCids   = 6 // c0..c5; c0 is never put
 	nNames  = 3
 )
 
 // owner of the model container ci (the same table as S_COwner / M_COwner in the specs)
-var cidOwner = []string{"o1", "o1", "o1", "o2", "o2", "o3"}
+var cidOwner = []string{"o1", "o1", "o1", "o2", "o2", "oa"}
+
+var ownerNames = []string{"o1", "o2", "oa"}
+
+// aIdx is AIdx(n) of Container.tla: the (1-based) Alphabet node whose standard account is owner oa's account.
+func aIdx(n int) int { return (n + 1) / 2 }
 
 // version-field lengths of the container blobs (owner offset = 2 + L + 4)
 var cidVerLen = []int{0, 0, 1, 5, 250, 17}
@@ -135,9 +146,13 @@ func newWorld(t *testing.T, n int, scale int, seed int64) *world {
 	w.bal = c.DeployBalance()
 	w.nid = c.DeployNeoFSID()
 	w.cn = deployContainer(c)
-	for i := 1; i <= nOwners; i++ {
-		nm := "o" + strconv.Itoa(i)
-		s := c.NewUser(nm, 0)
+	for _, nm := range ownerNames {
+		var s neotest.Signer
+		if nm == "oa" {
+			s = c.Members[aIdx(n)-1] // single-key account of the node = contract.CreateStandardAccount(node)
+		} else {
+			s = c.NewUser(nm, 0)
+		}
 		w.owners[nm] = s
 		w.ownerID[nm] = ownerIDOf(s.ScriptHash())
 		w.accName[hex.EncodeToString(s.ScriptHash().BytesBE())] = nm
@@ -254,24 +269,18 @@ func (w *world) unscale(b *big.Int, what string) int64 {
 
 func (w *world) exec(st Step) chain.Rec {
 	sg, names := w.signers(st.S)
-	var r *chain.Result
+	var r, r2 *chain.Result
 	w.step++
 	switch st.Act {
 	case "put":
-		v, ok := w.vars[st.V]
-		require.True(w.t, ok, "variant %q", st.V)
-		b := w.blob[st.C]
-		require.NotNil(w.t, b, "cid %q", st.C)
-		switch {
-		case st.Nm != "nil":
-			r = w.c.Run(w.cn, sg, "putNamed", b, v.sig, v.pub, v.token, "alias-"+st.Nm, "")
-		case st.Meta:
-			r = w.c.Run(w.cn, sg, "put", b, v.sig, v.pub, v.token, true)
-		case w.step%2 == 0:
-			r = w.c.Run(w.cn, sg, "put", b, v.sig, v.pub, v.token, false)
-		default:
-			r = w.c.Run(w.cn, sg, "put", b, v.sig, v.pub, v.token)
-		}
+		m, args := w.putCall(st.C, st.V, st.Nm, st.Meta)
+		r = w.c.Run(w.cn, sg, m, args...)
+	case "put2":
+		// two puts as two transactions of ONE block; the second runs on the result of the first
+		m1, a1 := w.putCall(st.C, st.V, st.Nm, st.Meta)
+		m2, a2 := w.putCall(st.C2, st.V2, st.Nm2, st.Meta2)
+		rs := w.c.RunBlock(w.bigTx(w.cn, sg, m1, a1...), w.bigTx(w.cn, sg, m2, a2...))
+		r, r2 = rs[0], rs[1]
 	case "delete":
 		r = w.c.Run(w.cn, sg, "delete", w.cid[st.C], detBytes(w.seed, "dsig", 64), []byte{})
 	case "setEACL":
@@ -309,8 +318,57 @@ func (w *world) exec(st Step) chain.Rec {
 		evs = r.Events
 	}
 	ntf, xfer := w.events(evs)
-	return chain.Rec{"act": st.Act, "S": names, "c": st.C, "v": st.V, "nm": st.Nm, "meta": st.Meta, "o": st.O, "k": st.K,
-		"amt": st.Amt, "res": r.Res(), "ret": ret, "ntf": ntf, "xfer": xfer, "fault": r.Fault}
+	rec := chain.Rec{"act": st.Act, "S": names, "c": st.C, "v": st.V, "nm": st.Nm, "meta": st.Meta, "o": st.O, "k": st.K,
+		"amt": st.Amt, "res": r.Res(), "ret": ret, "ntf": ntf, "xfer": xfer, "fault": r.Fault,
+		"c2": "nil", "v2": "nil", "nm2": "nil", "meta2": false, "res2": "nil", "ntf2": []any{}, "xfer2": []any{}}
+	if r2 != nil {
+		evs = nil
+		if r2.Halt {
+			evs = r2.Events
+		}
+		ntf2, xfer2 := w.events(evs)
+		rec["c2"], rec["v2"], rec["nm2"], rec["meta2"] = st.C2, st.V2, st.Nm2, st.Meta2
+		rec["res2"], rec["ntf2"], rec["xfer2"], rec["fault2"] = r2.Res(), ntf2, xfer2, r2.Fault
+	}
+	return rec
+}
+
+// putCall selects the entry point (putNamed / put with and without the meta argument) and its arguments.
+func (w *world) putCall(c, vn, nm string, meta bool) (string, []any) {
+	v, ok := w.vars[vn]
+	require.True(w.t, ok, "variant %q", vn)
+	b := w.blob[c]
+	require.NotNil(w.t, b, "cid %q", c)
+	switch {
+	case nm != "nil":
+		return "putNamed", []any{b, v.sig, v.pub, v.token, "alias-" + nm, ""}
+	case meta:
+		return "put", []any{b, v.sig, v.pub, v.token, true}
+	case w.step%2 == 0:
+		return "put", []any{b, v.sig, v.pub, v.token, false}
+	}
+	return "put", []any{b, v.sig, v.pub, v.token}
+}
+
+// bigTx is chain.Tx with a fixed generous system fee: the fee estimate of chain.Tx comes from a test invocation on
+// the state BEFORE the block, which is wrong for a transaction whose outcome depends on an earlier one of the block.
+func (w *world) bigTx(h util.Uint160, extra []neotest.Signer, method string, args ...any) *transaction.Transaction {
+	script, err := smartcontract.CreateCallScript(h, method, args...)
+	require.NoError(w.t, err)
+	e := w.c.E
+	signers := chain.Dedup(append([]neotest.Signer{w.c.Payer}, extra...))
+	tx := transaction.New(script, 0)
+	tx.Nonce = neotest.Nonce()
+	tx.ValidUntilBlock = e.Chain.BlockHeight() + 1
+	for _, acc := range signers {
+		tx.Signers = append(tx.Signers, transaction.Signer{Account: acc.ScriptHash(), Scopes: transaction.Global})
+	}
+	neotest.AddNetworkFee(w.t, e.Chain, tx, signers...)
+	tx.SystemFee = 40_0000_0000
+	for _, acc := range signers {
+		require.NoError(w.t, acc.SignTx(e.Chain.GetConfig().Magic, tx))
+	}
+	return tx
 }
 
 // events: the three registry notifications of the Container contract and the Transfer notifications of Balance
@@ -659,7 +717,8 @@ func (w *world) txtName(data []byte) string {
 
 func resetRec(idx int, sc *Scenario, obs map[string]any) chain.Rec {
 	return chain.Rec{"t": idx, "act": "reset", "S": []string{}, "c": "nil", "v": "nil", "nm": "nil", "meta": false, "o": "nil", "k": "nil",
-		"amt": 0, "res": "HALT", "ret": "null", "ntf": []any{}, "xfer": []any{}, "obs": obs, "bad": []string{}, "badAmt": []string{},
+		"amt": 0, "res": "HALT", "ret": "null", "ntf": []any{}, "xfer": []any{}, "c2": "nil", "v2": "nil", "nm2": "nil", "meta2": false,
+		"res2": "nil", "ntf2": []any{}, "xfer2": []any{}, "obs": obs, "bad": []string{}, "badAmt": []string{},
 		"n": sc.N, "scale": sc.Scale, "src": sc.Src}
 }
 
@@ -670,8 +729,11 @@ func runScenario(t *testing.T, rec *chain.Recorder, idx int, sc *Scenario, seed 
 	require.Empty(t, w.badAmt, "initial observation")
 	rec.Emit(resetRec(idx, sc, obs))
 	for _, st := range sc.Steps {
-		if st.Act == "put" && st.C == "c0" {
+		if (st.Act == "put" || st.Act == "put2") && (st.C == "c0" || st.C2 == "c0") {
 			continue // c0 is the never-used id
+		}
+		if st.Act == "put2" && st.C == st.C2 {
+			continue // a block holds puts of different containers
 		}
 		w.bad, w.badAmt = []string{}, []string{}
 		r := w.exec(st)
@@ -693,7 +755,7 @@ func randScenario(r *rand.Rand) *Scenario {
 	cids := []string{"c1", "c2", "c3", "c4", "c5"}
 	allc := []string{"c0", "c1", "c2", "c3", "c4", "c5"}
 	names := []string{"n1", "n2", "n3"}
-	owners := []string{"o1", "o2", "o3"}
+	owners := ownerNames
 	vs := []string{"a", "b"}
 	fee, afee := int64(0), int64(0)
 	bal := map[string]int64{}
@@ -743,6 +805,52 @@ func randScenario(r *rand.Rand) *Scenario {
 			sc.Steps = append(sc.Steps, Step{Act: "put", S: s, C: c, V: pick(vs), Nm: nm, Meta: meta, O: "nil", K: "nil"})
 			if len(s) > 0 && s[0] == "ALPHA" && bal[o] >= need {
 				bal[o] -= need // approximately (the put may fail for other reasons)
+			}
+		case k == 8 || k == 9:
+			// two puts of different containers in one block; the first owner is landed on the charge of both
+			// (same owner) or of its own put (different owners), sometimes one short
+			c1 := pick(cids)
+			c2 := pick(cids)
+			if c1 == c2 {
+				continue
+			}
+			i1, _ := strconv.Atoi(c1[1:])
+			i2, _ := strconv.Atoi(c2[1:])
+			o1, o2 := cidOwner[i1], cidOwner[i2]
+			nm1, nm2 := "nil", "nil"
+			if r.Intn(4) == 0 {
+				nm1 = pick(names)
+			}
+			if r.Intn(4) == 0 {
+				nm2 = pick(names)
+			}
+			f1, f2 := fee, fee
+			if nm1 != "nil" {
+				f1 += afee
+			}
+			if nm2 != "nil" {
+				f2 += afee
+			}
+			need := f1 * int64(sc.N)
+			if o1 == o2 {
+				need += f2 * int64(sc.N)
+			}
+			if withFees && r.Intn(3) > 0 {
+				target := need + int64(r.Intn(3)) - 1
+				if d := target - bal[o1]; d > 0 {
+					sc.Steps = append(sc.Steps, Step{Act: "mint", S: []string{"ALPHA"}, C: "nil", V: "nil", Nm: "nil", O: o1, K: "nil", Amt: d})
+					bal[o1] += d
+				}
+			}
+			s := sig()
+			sc.Steps = append(sc.Steps, Step{Act: "put2", S: s, C: c1, V: pick(vs), Nm: nm1, C2: c2, V2: pick(vs), Nm2: nm2, O: "nil", K: "nil"})
+			if len(s) > 0 && s[0] == "ALPHA" { // approximately
+				if bal[o1] >= f1*int64(sc.N) {
+					bal[o1] -= f1 * int64(sc.N)
+				}
+				if bal[o2] >= f2*int64(sc.N) {
+					bal[o2] -= f2 * int64(sc.N)
+				}
 			}
 		case k < 12:
 			sc.Steps = append(sc.Steps, Step{Act: "delete", S: sig(), C: pick(allc), V: "nil", Nm: "nil", O: "nil", K: "nil"})
@@ -804,6 +912,9 @@ var (
 
 func mint(o string, m int64) Step {
 	return Step{Act: "mint", S: sA, C: "nil", V: "nil", Nm: "nil", O: o, K: "nil", Amt: m}
+}
+func put2(S []string, c, v, nm, c2, v2, nm2 string) Step {
+	return Step{Act: "put2", S: S, C: c, V: v, Nm: nm, C2: c2, V2: v2, Nm2: nm2, O: "nil", K: "nil"}
 }
 func setc(k string, v int64) Step {
 	return Step{Act: "setConfig", S: sA, C: "nil", V: "nil", Nm: "nil", O: "nil", K: k, Amt: v}
@@ -888,13 +999,68 @@ func trapFees(n int, scale int) *Scenario {
 		setc("afee", 0),
 		st("put", sA, "c4", "b", "nil"),
 		setc("fee", 7),
-		st("put", sA, "c5", "a", "nil"), // o3 has nothing
-		mint("o3", 7*N),
+		st("put", sA, "c5", "a", "nil"), // oa (an Alphabet node's account) has nothing
+		mint("oa", 7*N),
 		st("put", sA, "c5", "a", "nil"),
 		st("delete", sA, "c5", "nil", "nil"),
-		mint("o3", 7*N),
+		mint("oa", 7*N),
 		st("put", sA, "c5", "a", "nil"), // tombstoned: nothing is charged
 	}}
+}
+
+// overlapping roles and shared blocks: the owner is an Alphabet node's standard account (net -F*N + F), two puts of
+// different owners in one block, an owner left with exactly F*N by the earlier put of the block, an owner whose put
+// is only affordable thanks to the fee share credited earlier in the same block
+func trapOverlap(n, scale int) *Scenario {
+	N := int64(n)
+	sc := &Scenario{N: n, Scale: scale, Src: "trap:overlap"}
+	add := func(s ...Step) { sc.Steps = append(sc.Steps, s...) }
+	boa := int64(0) // predicted balance of oa's account (= account of node aIdx(n))
+	land := func(target int64) { // mint oa up to target (it cannot be lowered)
+		if target > boa {
+			add(mint("oa", target-boa))
+			boa = target
+		}
+	}
+	add(setc("fee", 3), setc("afee", 2))
+	// oa can pay only thanks to the share of o1's fee credited by the first transaction of the block
+	land(3*N - 3)
+	add(mint("o1", 3*N))
+	add(put2(sA, "c1", "a", "nil", "c5", "a", "nil"))
+	boa += 3 - 3*N + 3
+	// the other order: oa's put comes first and is one share short
+	land(3*N - 3)
+	add(mint("o1", 3*N))
+	add(put2(sA, "c5", "a", "nil", "c1", "a", "nil"))
+	boa += 3
+	// oa alone: one short, exact (it keeps its own share), exact for a named container
+	land(3*N - 1)
+	add(st("put", sA, "c5", "a", "nil"))
+	if boa >= 3*N {
+		boa += 3 - 3*N
+	}
+	land(3 * N)
+	add(st("put", sA, "c5", "b", "nil"))
+	boa += 3 - 3*N
+	land(5 * N)
+	add(st("put", sA, "c5", "b", "n1"))
+	boa += 5 - 5*N
+	// two containers of different ordinary owners in one block
+	add(mint("o1", 3*N), mint("o2", 3*N+1))
+	add(put2(sA, "c1", "a", "nil", "c3", "a", "nil"))
+	// one owner, two containers: exactly 2*F*N (the second put finds exactly F*N), then one short for the second
+	add(mint("o1", 6*N))
+	add(put2(sA, "c1", "b", "nil", "c2", "a", "nil"))
+	add(mint("o1", 6*N-1))
+	add(put2(sA, "c1", "a", "nil", "c2", "b", "nil"))
+	add(put2([]string{"CMT"}, "c1", "a", "nil", "c2", "b", "nil"))
+	// same name twice in one block: the second finds it taken
+	add(mint("o1", 5*N), mint("o2", 5*N))
+	add(put2(sA, "c2", "a", "n2", "c4", "a", "n2"))
+	// fee 0: nothing moves, also for the node owner
+	add(setc("fee", 0), setc("afee", 0))
+	add(put2(sA, "c5", "a", "nil", "c4", "a", "n3"))
+	return sc
 }
 
 func TestDrive(t *testing.T) {
@@ -931,7 +1097,8 @@ func TestDrive(t *testing.T) {
 	}
 	if os.Getenv("VERIF_NOTRAPS") == "" {
 		for _, n := range ns {
-			scs = append(scs, trapLifecycle(n), trapPreRegistered(n), trapSecondName(n), trapFees(n, n%len(scales)))
+			scs = append(scs, trapLifecycle(n), trapPreRegistered(n), trapSecondName(n), trapFees(n, n%len(scales)),
+				trapOverlap(n, (n+1)%len(scales)))
 		}
 	}
 	r := rand.New(rand.NewSource(seed*7919 + 17))
